@@ -132,7 +132,22 @@ def prepare(t):
             o2 = dict(obj)
             if "do2" in obj:
                 o2["do"], o2["sh"] = obj["do2"], obj["sh2"]
-            return _call(_variant(t), o2, seeded, sempler, gens, U)
+            v = _variant(t)
+            if variant == "kinds" and "do" in t:
+                # ... or with other *kinds* of intervention on other targets: a do-intervention where the judged call has none,
+                # none where it has one (what a model computes once and keeps must not depend on which question came first)
+                p_ = len(t["W"])
+                if t["do"]:
+                    v["do"], o2["do"] = {}, {}
+                else:
+                    j = (t["seed"] + 1) % p_
+                    v["do"] = {j: (2.0, 0.7)}
+                    if "a" in obj:
+                        o2["do"] = {j: noise.normal(2.0, 0.7)}
+                v["shift"] = {} if t["shift"] else {(t["seed"] + 2) % p_: (0.3, 0.2)}
+                if "a" in obj:
+                    o2["sh"] = {j2: noise.uniform(w[0], w[0] + w[1]) for j2, w in v["shift"].items()}
+            return _call(v, o2, seeded, sempler, gens, U)
         return _call(t, obj, seeded, sempler, gens, U)
     return call
 
@@ -376,7 +391,11 @@ def judge(family, case, rec):
         if target["seed"] % 2 == 0 or kind in ("lganm_sample", "anm_sample"):
             # history *before* the first target call: same object, same seed and targets, other parameter values
             try:
-                call(True, variant=True)
+                if target["seed"] % 3 == 0 or kind == "lganm_sample" and target["seed"] % 3 == 1:
+                    call(True, variant="kinds")
+                    rec.count("perturbation:same-object-other-kinds-first")
+                else:
+                    call(True, variant=True)
                 rec.count("perturbation:same-object-variant-first")
             except Exception:
                 rec.count("perturbation:same-object-variant-raised")
@@ -390,7 +409,7 @@ def judge(family, case, rec):
                     run_perturbation(pt)
                 # the same object / function called with the same seed and targets but other parameter values
                 try:
-                    call(True, variant=True)
+                    call(True, variant=("kinds" if step == 1 else True))
                     rec.count("perturbation:same-object-variant")
                 except Exception:
                     rec.count("perturbation:same-object-variant-raised")
